@@ -119,9 +119,10 @@ class EFLRItem:
     def _compute_copy_number(self) -> int:
         """Compute copy number of this ELFRItem, i.e. how many other objects of the same type and name there are."""
 
-        # (called before this item is registered with the parent, so only the previously added ones are counted)
-        items_with_the_same_name = filter(lambda o: o.name == self.name, self.parent.get_all_eflr_items())
-        return len(list(items_with_the_same_name))
+        # (called before this item is registered with the parent, so only the previously added ones are looked at;
+        #  the first number no same-named item carries - their count, unless one of them got its name by renaming)
+        taken = {o.copy_number for o in self.parent.get_all_eflr_items() if o.name == self.name}
+        return next(n for n in range(len(taken) + 1) if n not in taken)
 
     @classmethod
     def _check_parent(cls, parent: "EFLRSet") -> None:
